@@ -37,6 +37,7 @@ func run(e *harness.Env) {
 	encodings(e, ref)
 	cmaps(e)
 	cmapAstral(e)
+	cmapCarry(e)
 	cmapScalars(e)
 	precedence(e)
 	utf16s(e)
